@@ -1,6 +1,6 @@
 //! C19: k-mer indexing and chaining are exact (oracle: brute force over small inputs)
 use crate::util::*;
-use bio::alignment::sparse::{find_kmer_matches, lcskpp, sdpkpp, sdpkpp_union_lcskpp_path};
+use bio::alignment::sparse::{expand_kmer_matches, find_kmer_matches, lcskpp, sdpkpp, sdpkpp_union_lcskpp_path};
 use bio::alphabets::{Alphabet, RankTransform};
 use bio::data_structures::qgram_index::QGramIndex;
 
@@ -83,6 +83,25 @@ fn check_chain(s1: &[u8], s2: &[u8], k: usize) -> Result<(), String> {
         if s1.len() >= k && s2.len() >= k { for i in 0..=s1.len() - k { for j in 0..=s2.len() - k { if s1[i..i + k] == s2[j..j + k] { want.push((i as u32, j as u32)); } } } }
         want.sort();
         if ms != want { return Err(format!("find_kmer_matches = {:?}, equal k-mer pairs are {:?}", ms, want)); }
+        // mismatch expansion: strictly ascending, every k-mer inside both sequences, every match kept; every added position lies on the
+        // diagonal of a match and the stretch between it and that match has at most `am` mismatching symbol pairs
+        for am in 0..3usize {
+            let e = expand_kmer_matches(&s1, &s2, k, &ms, am);
+            for w in e.windows(2) { if w[0] >= w[1] { return Err(format!("expand_kmer_matches({}) not strictly ascending: {:?}", am, e)); } }
+            for p in e.iter() { if p.0 as usize + k > s1.len() || p.1 as usize + k > s2.len() { return Err(format!("expand_kmer_matches({}) position {:?} leaves the sequences", am, p)); } }
+            for m in ms.iter() { if !e.contains(m) { return Err(format!("expand_kmer_matches({}) lost the match {:?}", am, m)); } }
+            for p in e.iter() {
+                if ms.contains(p) { continue; }
+                let d = p.0 as i64 - p.1 as i64;
+                let ok = ms.iter().any(|m| m.0 as i64 - m.1 as i64 == d && {
+                    // symbols between the k-mer at p and the k-mer at m (the part of the longer stretch not covered by the match itself)
+                    let (lo, hi) = if p.0 < m.0 { (p.0 as usize, m.0 as usize) } else { (m.0 as usize + k, p.0 as usize + k) };
+                    let off = p.1 as i64 - p.0 as i64;
+                    (lo..hi).filter(|&i| s1[i] != s2[(i as i64 + off) as usize]).count() <= am
+                });
+                if !ok { return Err(format!("expand_kmer_matches({}) added {:?}, which no match reaches within {} mismatches", am, p, am)); }
+            }
+        }
         let res = lcskpp(&ms, k);
         let ku = k as u32;
         // validity of the chain + score recomputation
